@@ -152,7 +152,11 @@ prop("C04",
 # ----------------------------------------------------------------------------- C06
 prop("C06",
      fuzz=dict(prop=6, workers=8, seconds=120),
-     units=lambda tier: [Unit("c06", "c06.cpp", SHIPPED, cases=scale(tier, 30000, 500000), shards=16)],
+     # thorough: also single CTR / parallel requests of >= 65281 blocks and of more than 4 GiB on every back end, each sampled against
+     # the back-end-free single-block functions (big.cpp): agreement with one reference is agreement with each other
+     units=lambda tier: [Unit("c06", "c06.cpp", SHIPPED, cases=scale(tier, 30000, 500000), shards=16)] +
+                        ([Unit("c06-big-par", "big.cpp", SHIPPED, cases=120, shards=4, args=["--family", "par", "--huge", "1"], timeout=6000),
+                          Unit("c06-big-ctr", "big.cpp", SHIPPED, cases=120, shards=4, args=["--family", "ctr", "--huge", "1"], timeout=6000)] if tier == "thorough" else []),
      level="exploration",
      rule=("unconstrained API histories (3-40 calls: init, valid and invalid key / tweaked-key / tweak / counter calls, data "
            "calls of all sizes, NULL arguments, cleanup, use after cleanup, re-init; parallel: multiples and non-multiples of "
@@ -357,7 +361,10 @@ prop("C17",
 
 # ----------------------------------------------------------------------------- C03 C07 C10
 prop("C03",
-     units=lambda tier: with_portable("c03", "c03.cpp", tier, 40000, 600000),
+     # thorough: also single parallel requests of >= 65281 blocks and of more than 4 GiB, both directions, every back end, sampled
+     # against the single-block functions of the same direction (big.cpp; the unit C07 runs in both tiers)
+     units=lambda tier: with_portable("c03", "c03.cpp", tier, 40000, 600000) +
+                        ([Unit("c03-big", "big.cpp", SHIPPED, cases=120, shards=4, args=["--family", "par", "--huge", "1"], timeout=6000)] if tier == "thorough" else []),
      level="exploration",
      rule=("three generators: (a) single-block round trips D(E(x)) = x and E(D(x)) = x on all six SKINNY variants, the four "
            "tweakable ones (after 0-2 tweak changes) and Mantis, incl. overlapping buffers; (b) parallel round trips for 0..29 "
@@ -767,7 +774,9 @@ prop("C13",
      technique="property-based testing (rapidcheck): generated register/stack garbage on the real CPU + generated CPU models through a CPUID hook + executed-instruction audit of generated programs per back end",
      text=("Generated calling contexts on the real CPU show whether the choice depends on register or stack garbage; generated CPU "
            "models (the host has every feature, so only a model separates the feature bits) show whether the choice is the widest "
-           "supported one and never an unsupported one. Sampling of contexts and models."),
+           "supported one and never an unsupported one. A second, independent oracle audits the instructions that generated programs actually "
+           "execute inside the library per back end (on the library as the repository's Makefile builds it): nothing the selection logic did not "
+           "probe for. Sampling of contexts, models and programs."),
      note="trusts the H3 hook to put the model in place of CPUID/XGETBV and the expected-selection function written from the Intel SDM rules",
      design_ref="DESIGN.md#c13")
 
